@@ -80,6 +80,9 @@ class RadialClamp(ClampBase):
     ):
         position = np.array(position)
         initial_point = np.copy(position)
+        # the circle is defined by the values given at creation, not by arrays the caller may change later
+        center = np.array(center)
+        normal = np.array(normal)
 
         if bounds is not None:
             clamp_bounds = [bounds]
